@@ -30,6 +30,7 @@ THEOREMS = [
     "BeyondVerif.C10.guards_spec",
     "BeyondVerif.C10.max_only_at_maximum",
     "BeyondVerif.C10.visibility_stream_spec",
+    "BeyondVerif.C10.frameless_reads_own_frame",
     "BeyondVerif.C10.passes_spec",
     "BeyondVerif.C10.stationKinds_spec",
     "BeyondVerif.Listen.bisect2_eq_wf",
@@ -38,9 +39,13 @@ THEOREMS = [
     "BeyondVerif.C10W.apside_label_both_directions",
     "BeyondVerif.C10W.light_label_backward",
     "BeyondVerif.C10W.exact_zero_at_sample_two_events",
+    "BeyondVerif.C10W.visibility_frameless_no_spurious",
+    "BeyondVerif.C10W.visibility_frameless_genuine",
+    "BeyondVerif.C10W.visibility_frameless_node_and_los",
 ]
 LEVEL_TEXT = ("Lean theorems over a model of Speaker.listen/_bisect/Listener.check/clear, the interleaving of iter and the filter of "
-              "TopocentricFrame.visibility, for an arbitrary watched quantity f : Int -> Int, arbitrary guards, listener lists and sample sequences "
+              "TopocentricFrame.visibility (listeners with a frame of their own and listeners created with frame=None alike), for an arbitrary watched "
+              "quantity f : Int -> Int, arbitrary guards, listener lists and sample sequences "
               "(dates in integer microseconds, timedelta/2 as round-half-even): an event is emitted between two samples iff the listener's guard holds "
               "and the sign of f differs (exactly one per listener), it lies in (t_k, t_k+1] (resp. [t_k+1, t_k) backward), f changes sign within 1 us of it, "
               "the stream is ordered in the direction of the iteration (forward and backward), listener history is irrelevant; _bisect terminates "
@@ -50,8 +55,7 @@ LEVEL_TEXT = ("Lean theorems over a model of Speaker.listen/_bisect/Listener.che
               "Ephem.iter and TopocentricFrame.visibility driven through stub states with integer polynomial components vs the compiled model.")
 LEVEL_NOTE = ("agreement with closed-form Keplerian times, the conical shadow geometry and the zero elevation(-rate) at AOS/LOS/MAX is numerical: "
               "oracle sweep on the real API only; labels of the derivative-based listeners (Node, StationSignal, Terminator) are tied to the crossing "
-              "direction by the oracle only; frame-less listeners (frame=None) inside visibility are outside the model (open finding "
-              "C10-visibility-prev-frame-mutated, oracle); model hand-written, tied by exact correspondence and by the regenerated listener tables")
+              "direction by the oracle only; model hand-written, tied by exact correspondence and by the regenerated listener tables")
 TECHNIQUE = ("Lean 4 proofs (functional induction on the bisection loop, induction over sample sequences and listener lists) about an executable "
              "model; listener tables translated from the source AST; exact model/implementation correspondence through a stub propagator; oracle on real orbits")
 TRUSTED = [
@@ -63,7 +67,9 @@ TRUSTED = [
 ASSUMPTIONS = [
     "the model Model/Listen.lean is hand-written; it is tied to listeners.py / base.py / ephem.py / stations.py by the exact correspondence run and, for the per-class quantity/guard/label/event class, by AST translation",
     "dates are integer microseconds: the float representation of Date (day + seconds) is assumed exact on that grid (true within the magnitudes exercised; the oracle checks real orbits with a 5 us window)",
-    "the watched quantity is a deterministic function of the date and of the listener's own frame (true of every listener class given an explicit frame; the product f(begin)*f(mid) is assumed not to underflow)",
+    "the watched quantity is a deterministic function of the date and of the frame the listener reads the state in: its own frame, or (frame=None) the frame the propagator yields its states in — "
+    "no state object is re-framed while it is `listener.prev` (true of Speaker.listen/_bisect and, since d3db55e, of TopocentricFrame.visibility; the correspondence stub states carry a settable "
+    "`frame` attribute, so an in-place re-framing shows up as a disagreement); the product f(begin)*f(mid) is assumed not to underflow",
     "the listener objects in one `listeners` list are distinct objects (the same object listed twice never fires at its second position)",
     "sign is three-valued as in numpy.sign: a crossing through an exact zero AT a sample date yields two events (one at the sample, one 1 us later) — witnessed in Witness/C10.lean, faithful to the code",
     "the anomaly difference is modelled in fixed point (rad * 2^20) and kept inside (-pi, pi) by the stub, so `|diff - diff_prev| < pi` is an integer comparison with ceil(pi * 2^20)",
@@ -73,13 +79,14 @@ NOT_COVERED = [
     "labels of NodeListener, StationSignalListener, TerminatorListener come from a derivative component independent of the watched quantity: agreement with the crossing direction is checked by the oracle only",
     "Date.range / DateRange (how the sample sequence is produced) belongs to C03/C08; the model takes the sample sequence as given",
     "NumericalPropagator: its internal interpolating Ephem is the Speaker; sharpness there is not re-evaluated by the oracle (order, soundness, completeness, labels are)",
-    "listeners created with frame=None read the state in whatever frame the state object currently has; the model gives every listener its own fixed frame, so the in-place re-framing done by "
-    "TopocentricFrame.visibility (open finding C10-visibility-prev-frame-mutated) is seen by the oracle only",
+    "a caller that itself re-frames the yielded state objects in place between two steps of a plain iter() (not visibility) changes what frame=None listeners read: outside the model (the model's states keep their frame)",
 ]
 OPEN = []
 RULE = ("correspondence: random listener lists (1-6 listeners out of 14 kinds) x random sample sequences (1 us to 100 s spacing, regular / irregular / backward, roots of the "
         "polynomials on and off the samples) x 6 iteration modes (dates, range, Ephem dates/step/stored points) x listener history (fresh / reused / abandoned generator); "
-        "TopocentricFrame.visibility with 0-6 additional listeners given through listeners= and/or events= (True / list / single / none), with and without mask; "
+        "node / apside / anomaly listeners with a frame of their own or created with frame=None (reading the stub state's own, settable, frame); "
+        "TopocentricFrame.visibility with 0-7 additional listeners (with / without frame) given through listeners= and/or events= (True / list / single / none), with and without mask, "
+        "plus the three kernel-checked regression witnesses of Witness/C10.lean replayed on the real method; "
         "a case is non-trivial when at least one event is emitted (visibility: and one sample is below the horizon); plus _bisect alone (result and number of propagations). "
         "oracle: every clause as a predicate on real orbits (see samples); tolerances from the property text")
 
@@ -661,7 +668,8 @@ def check_visibility(out, orb, sta, kw, desc):
     with_user(lambda: [LS.NodeListener(frame="EME2000"), LS.ApsideListener(frame="EME2000"), LS.LightListener()],
               "visibility:user-listeners",
               "visibility with additional listeners: stream differs from (above-horizon points + their events + the station's own AOS/LOS/MAX events)", 1.5)
-    # (listeners with frame=None, "the frame is unchanged": they read the state in the orbit's own frame)
+    # (listeners with frame=None, "the frame is unchanged": they read the state in the orbit's own frame, prev included —
+    #  fixed finding C10-visibility-prev-frame-mutated, d3db55e; the family stays)
     with_user(lambda: [LS.ApsideListener()], "visibility:prev-frame-mutated",
               "visibility with an additional frame-less listener: spurious / missing events (the yielded point, still `listener.prev`, was re-framed in place)", 1.0)
     # a caller-owned listeners list, used twice
@@ -703,13 +711,13 @@ def replay(f):
     elif isinstance(inp, dict) and inp.get("vis"):
         env = _Env.get()
         real = real_visibility(env, inp["samples"], [tuple(x) for x in inp["specs"]], tuple(inp["sta"]), inp["nl"], inp["how"],
-                               inp["has_mask"], inp["mode"], inp["history"])
+                               inp["has_mask"], inp["mode"], inp["history"], tuple(inp["own"]))
         m = core.Driver("C10").run([inp["line"]])[0]
         if real != m:
             out.fail(f["family"], f["what"], inp, observed=real, expected=m)
     elif isinstance(inp, dict) and "line" in inp:
         env = _Env.get()
-        real = real_stream(env, inp["samples"], [tuple(x) for x in inp["specs"]], inp["mode"], inp["history"])
+        real = real_stream(env, inp["samples"], [tuple(x) for x in inp["specs"]], inp["mode"], inp["history"], tuple(inp["own"]))
         m = core.Driver("C10").run([inp["line"]])[0]
         if real != m:
             out.fail(f["family"], f["what"], inp, observed=real, expected=m)
@@ -991,6 +999,8 @@ def extract(ctx):
 # =====================================================================================
 
 ANOM_UNIT = 1 << 20
+OWN = "own-frame"     # key of `chans` holding the Key of the frame the stub states are produced in
+FRAMELESS = ("node", "apside", "anomaly:true", "anomaly:mean", "anomaly:eccentric", "anomaly:aol")   # classes whose `frame` defaults to None
 KINDS = ["node", "apside", "signal", "mask", "max", "radvel0", "radvel1", "umbra", "penumbra", "terminator",
          "anomaly:true", "anomaly:mean", "anomaly:eccentric", "anomaly:aol"]
 
@@ -1022,16 +1032,16 @@ class _Env:
         self.LS = LS
         self.Date = Date
         self.EPOCH = Date(2020, 1, 1)
-        self.ambiguous = False
 
         def us(date):
             return (date - env.EPOCH) // US
         self.us = us
 
         class View:
-            """`orb.copy(frame=key, form=…)`: the components the listeners read"""
-            def __init__(self, t, ch):
-                self.t, self.ch = t, ch
+            """`orb.copy(frame=key, form=…)`: a new state object in the given frame — the components the listeners read,
+            plus what a copy of a real state vector carries over (date, `event`)"""
+            def __init__(self, t, ch, date=None, event=None):
+                self.t, self.ch, self.date, self.event = t, ch, date, event
             phi = property(lambda s: evalpoly(s.ch[0], s.t))
             phi_dot = property(lambda s: evalpoly(s.ch[1], s.t))
             r_dot = property(lambda s: evalpoly(s.ch[2], s.t))
@@ -1046,22 +1056,26 @@ class _Env:
             setattr(View, a, property(View._anom))
 
         class StubOrb:
-            def __init__(self, date, chans):
+            """what the stub propagator / ephemeris yields: a state object with a (settable) `frame` of its own — the key
+            `chans[OWN]` — in which the `frame=None` listeners read it"""
+            def __init__(self, date, chans, frame=None):
                 self.date, self.chans, self.event = date, chans, None
                 self.t = us(date)
-                self.frame = self.form = None
+                self.frame = chans[OWN] if frame is None else frame
+                self.form = "cartesian"
 
             @property
             def phi(self):
-                # what TopocentricFrame.visibility reads after `point.frame = station; point.form = "spherical"`
+                # (read by a `visibility` that re-frames the point itself: `point.frame = station; point.form = "spherical"`)
                 return evalpoly(self.chans[self.frame][0], self.t)
 
             def copy(self, *, frame=None, form=None, same=None):
+                # StateVector.copy: a new object; `frame` / `form` None keep those of the original
                 if frame is None and form is None:
-                    o = StubOrb(self.date, self.chans)
+                    o = StubOrb(self.date, self.chans, self.frame)
                     o.event = self.event
                     return o
-                return View(self.t, self.chans[frame])
+                return View(self.t, self.chans[self.frame if frame is None else frame], self.date, self.event)
 
         class Key:
             """stands for a frame or a station"""
@@ -1108,19 +1122,28 @@ class _Env:
         from datetime import timedelta
         return self.EPOCH + timedelta(microseconds=t)
 
-    def build(self, specs):
-        """specs: list of (kind, A, B, C, D, elev) -> (listeners, chans)"""
+    def build(self, specs, own):
+        """specs: list of (kind, A, B, C, D, elev), kind + "@" for a listener created with frame=None (A–D empty);
+        own: (A, B, C, D) components of the states in their own frame  ->  (listeners, chans)"""
         LS = self.LS
         chans = {}
+        okey = self.Key(tuple(own) + (0,))
+        chans[okey] = okey.entry
+        chans[OWN] = okey
         Ls = []
         for kind, A, B, C, D, E in specs:
-            entry = (A, B, C, D, E)
-            key = self.Key(entry)
-            chans[key] = entry
+            if kind.endswith("@"):
+                kind, key = kind[:-1], None
+                if kind not in FRAMELESS:
+                    raise ValueError(kind)
+            else:
+                entry = (A, B, C, D, E)
+                key = self.Key(entry)
+                chans[key] = entry
             if kind == "node":
-                L = LS.NodeListener(frame=key)
+                L = LS.NodeListener(frame=key) if key else LS.NodeListener()
             elif kind == "apside":
-                L = LS.ApsideListener(frame=key)
+                L = LS.ApsideListener(frame=key) if key else LS.ApsideListener()
             elif kind == "signal":
                 L = LS.StationSignalListener(key, elev=E)
             elif kind == "mask":
@@ -1134,7 +1157,7 @@ class _Env:
             elif kind == "terminator":
                 L = self.StubTerminator(key)
             elif kind.startswith("anomaly:"):
-                L = LS.AnomalyListener(0.0, kind.split(":")[1], frame=key)
+                L = LS.AnomalyListener(0.0, kind.split(":")[1], frame=key) if key else LS.AnomalyListener(0.0, kind.split(":")[1])
             else:
                 raise ValueError(kind)
             Ls.append(L)
@@ -1206,6 +1229,7 @@ def gen_case(rng):
     ts, skind = gen_samples(rng)
     lo, hi = min(ts), max(ts)
     specs = []
+    own_anom = None
     for _ in range(rng.choice([1, 1, 2, 2, 3, 4, 6])):
         kind = rng.choice(KINDS)
         if kind.startswith("anomaly"):
@@ -1220,7 +1244,20 @@ def gen_case(rng):
         C = gen_poly(rng, lo, hi, ts, 2)
         D = gen_poly(rng, lo, hi, ts, 1)
         E = rng.choice([0, 0, 1, -2, 1000])
+        if kind in FRAMELESS and rng.random() < 0.4:
+            # created with frame=None: reads the states in their own frame
+            if kind.startswith("anomaly"):
+                if own_anom is None:
+                    own_anom = A
+                    specs.append((kind + "@", [], [], [], [], 0))
+                    continue
+            else:
+                specs.append((kind + "@", [], [], [], [], 0))
+                continue
         specs.append((kind, A, B, C, D, E))
+    # the states' own frame: latitude (or, when a frame-less anomaly listener is present, the anomaly in fixed point),
+    # its rate, radial velocity, (mask: unused)
+    own = (own_anom if own_anom is not None else gen_poly(rng, lo, hi, ts), gen_poly(rng, lo, hi, ts, 2), gen_poly(rng, lo, hi, ts, 2), [0])
     mode = rng.choice(["dates", "dates", "range", "ephem-dates", "ephem-step", "ephem-nostep"])
     steps = {ts[i + 1] - ts[i] for i in range(len(ts) - 1)}
     if mode in ("range", "ephem-step") and (len(steps) != 1 or (mode == "ephem-step" and ts[1] < ts[0])):
@@ -1228,17 +1265,24 @@ def gen_case(rng):
     if mode == "ephem-nostep" and ts[1] < ts[0]:
         mode = "ephem-dates"
     history = rng.choice(["fresh", "fresh", "reuse", "abandoned"])
-    return ts, skind, specs, mode, history
+    return ts, skind, specs, mode, history, own
 
 
-def case_line(ts, specs):
-    p = lambda cs: ",".join(str(c) for c in cs)
-    return "c10 " + p(ts) + " " + " ".join(f"{k} {p(A)} {p(B)} {p(C)} {p(D)} {E}" for k, A, B, C, D, E in specs)
+def _p(cs):
+    return ",".join(str(c) for c in cs) or "-"
 
 
-def real_stream(env, ts, specs, mode, history):
+def _specs_txt(specs):
+    return " ".join(f"{k} {_p(A)} {_p(B)} {_p(C)} {_p(D)} {E}" for k, A, B, C, D, E in specs)
+
+
+def case_line(ts, specs, own):
+    return (f"c10 {_p(ts)} {_p(own[0])} {_p(own[1])} {_p(own[2])} {_p(own[3])} " + _specs_txt(specs)).rstrip()
+
+
+def real_stream(env, ts, specs, mode, history, own):
     from datetime import timedelta
-    Ls, chans = env.build(specs)
+    Ls, chans = env.build(specs, own)
     dates = [env.date(t) for t in ts]
     if mode.startswith("ephem"):
         # stored points: the samples themselves (nostep) or a coarser grid around them
@@ -1273,12 +1317,16 @@ def real_stream(env, ts, specs, mode, history):
 def gen_vis_case(rng):
     """TopocentricFrame.visibility through the stubs: station components, the caller's listeners (via listeners= and/or
     events=), events flag, mask or not"""
-    ts, skind, specs, _, history = gen_case(rng)
+    ts, skind, specs, _, history, own = gen_case(rng)
     lo, hi = min(ts), max(ts)
     sta = (gen_poly(rng, lo, hi, ts), gen_poly(rng, lo, hi, ts, 2), gen_poly(rng, lo, hi, ts, 2), gen_poly(rng, lo, hi, ts, 1), 0)
     r = rng.random()
     if r < 0.15:
         specs = []
+    elif r < 0.35 and not any(k.startswith("anomaly") for k, *_ in specs):
+        # one more frame-less listener: the case the in-place re-framing of the yielded points used to break
+        specs = specs + [(rng.choice(["node@", "apside@"]), [], [], [], [], 0)]
+        rng.shuffle(specs)
     nl = rng.randint(0, len(specs))        # the first nl through listeners=, the others through events=
     how = rng.choice(["true", "list", "list", "single", "none"])
     if how == "list" and nl == len(specs):
@@ -1294,21 +1342,21 @@ def gen_vis_case(rng):
     mode = rng.choice(["dates", "dates", "range"])
     if mode == "range" and len({ts[i + 1] - ts[i] for i in range(len(ts) - 1)}) != 1:
         mode = "dates"
-    return ts, skind, specs, sta, nl, how, has_mask, mode, history
+    return ts, skind, specs, sta, nl, how, has_mask, mode, history, own
 
 
-def vis_line(ts, specs, sta, how, has_mask):
-    p = lambda cs: ",".join(str(c) for c in cs)
-    return (f"c10v {0 if how == 'none' else 1} {1 if has_mask else 0} {p(ts)} {p(sta[0])} {p(sta[1])} {p(sta[2])} {p(sta[3])} "
-            + " ".join(f"{k} {p(A)} {p(B)} {p(C)} {p(D)} {E}" for k, A, B, C, D, E in specs)).rstrip()
+def vis_line(ts, specs, sta, how, has_mask, own):
+    p = _p
+    return (f"c10v {0 if how == 'none' else 1} {1 if has_mask else 0} {p(ts)} {p(own[0])} {p(own[1])} {p(own[2])} {p(own[3])} "
+            f"{p(sta[0])} {p(sta[1])} {p(sta[2])} {p(sta[3])} " + _specs_txt(specs)).rstrip()
 
 
-def real_visibility(env, ts, specs, sta, nl, how, has_mask, mode, history):
+def real_visibility(env, ts, specs, sta, nl, how, has_mask, mode, history, own):
     """the REAL TopocentricFrame.visibility (called unbound on a stub station) over the stub propagator"""
     from datetime import timedelta
     from beyond.frames.stations import TopocentricFrame
     LS = env.LS
-    Ls, chans = env.build(specs)
+    Ls, chans = env.build(specs, own)
     station = env.Key(sta, mask=True if has_mask else None)
     chans[station] = sta
     src = env.StubProp(chans)
@@ -1355,33 +1403,56 @@ def real_visibility(env, ts, specs, sta, nl, how, has_mask, mode, history):
     return ";".join(sig)
 
 
+# the kernel-checked regression witnesses of Witness/C10.lean (`visibility_frameless_*`), replayed on the implementation:
+# (samples, user listeners, station components, own components, expected stream)
+_WITNESS_VIS = [
+    # range rate in the states' own frame constant +5 (no apsis), topocentric range rate -5, in view all along:
+    # no event at all (before d3db55e: a "Periapsis" 1 us after every sample)
+    ([0, 1000, 2000], [("apside@", [], [], [], [], 0)], ([1], [0], [-5], [0], 0), ([0], [0], [5], [0]),
+     "0/-;1000/-;2000/-"),
+    # own radial velocity t - 500: one genuine periapsis at 500 us, found although the topocentric range rate is negative
+    ([0, 1000], [("apside@", [], [], [], [], 0)], ([1], [0], [-5], [0], 0), ([0], [0], [-500, 1], [0]),
+     "0/-;500/0/Periapsis;1000/-"),
+    # latitude in the own frame t - 1500 (ascending node at 1500 us), elevation 7 - t/1000 ... here 2500 - t: the node is
+    # found in view; the station's own AOS/LOS listener sees the LOS at 2500
+    ([0, 1000, 2000, 3000], [("node@", [], [], [], [], 0)], ([2500, -1], [-1], [0], [0], 0), ([-1500, 1], [1], [0], [0]),
+     "0/-;1000/-;1500/0/Asc Node;2000/-;2500/1/LOS"),
+]
+
+
 def correspondence(ctx):
     out = Outcome()
     env = _Env.get()
     rng = ctx.rng
     # ---- TopocentricFrame.visibility
-    vcases = [gen_vis_case(rng) for _ in range(ctx.n(1200, 40000))]
-    vlines = [vis_line(c[0], c[2], c[3], c[5], c[6]) for c in vcases]
+    vcases = [(ts, "witness", specs, sta, len(specs), "true", False, "dates", "fresh", own) for ts, specs, sta, own, _ in _WITNESS_VIS]
+    vcases += [gen_vis_case(rng) for _ in range(ctx.n(1200, 40000))]
+    vlines = [vis_line(c[0], c[2], c[3], c[5], c[6], c[9]) for c in vcases]
     vmodel = core.Driver("C10").run(vlines)
+    for w, m in zip(_WITNESS_VIS, vmodel):
+        if m != w[4]:
+            out.fail("visibility-witness", "compiled model disagrees with the kernel-checked witness of Witness/C10.lean", {"line": vlines[_WITNESS_VIS.index(w)]},
+                     observed=m, expected=w[4])
     for c, line, m in zip(vcases, vlines, vmodel):
-        ts, skind, specs, sta, nl, how, has_mask, mode, history = c
+        ts, skind, specs, sta, nl, how, has_mask, mode, history, own = c
         try:
             real = real_visibility(env, *c[:1], *c[2:])
         except Exception as e:
             real = f"raised {type(e).__name__}: {e}"
         nev = sum(1 for it in m.split(";") if it and not it.endswith("/-"))
         below = sum(1 for t in ts if evalpoly(sta[0], t) < 0)
-        out.count(key=("vis", tuple(ts), tuple((s[0], tuple(s[1])) for s in specs), tuple(sta[0]), how, has_mask, mode, history),
-                  nontrivial=nev > 0 and below > 0, vis_events=how, vis_mode=mode, vis_user=min(len(specs), 4))
+        nfl = sum(1 for sp in specs if sp[0].endswith("@"))
+        out.count(key=("vis", tuple(ts), tuple((s[0], tuple(s[1])) for s in specs), tuple(sta[0]), tuple(own[2]), how, has_mask, mode, history),
+                  nontrivial=nev > 0 and (below > 0 or skind == "witness"), vis_events=how, vis_mode=mode, vis_user=min(len(specs), 4), vis_frameless=min(nfl, 2))
         if real != m:
             out.fail("visibility-stream", "stream of TopocentricFrame.visibility differs between the model and the real method",
                      {"vis": True, "samples": ts, "specs": specs, "sta": sta, "nl": nl, "how": how, "has_mask": has_mask, "mode": mode,
-                      "history": history, "line": line}, observed=real, expected=m)
+                      "history": history, "own": own, "line": line}, observed=real, expected=m)
         out.sample({"line": line[:200], "reply": m[:200]}, limit=1)
     cases = []
     for _ in range(ctx.n(2500, 100000)):
         cases.append(gen_case(rng))
-    lines = [case_line(ts, specs) for ts, _, specs, _, _ in cases]
+    lines = [case_line(c[0], c[2], c[5]) for c in cases]
     # _bisect alone, on the real Speaker
     bis = []
     for _ in range(ctx.n(1000, 30000)):
@@ -1391,27 +1462,23 @@ def correspondence(ctx):
         bis.append((b, b + d, P))
         lines.append(f"c10b {b} {b + d} " + ",".join(map(str, P)))
     model = core.Driver("C10").run(lines)
-    for (ts, skind, specs, mode, history), m in zip(cases, model[:len(cases)]):
-        env.ambiguous = False
+    for (ts, skind, specs, mode, history, own), line, m in zip(cases, lines, model[:len(cases)]):
         try:
-            real = real_stream(env, ts, specs, mode, history)
+            real = real_stream(env, ts, specs, mode, history, own)
         except Exception as e:   # the model never raises: a raising implementation is a disagreement
             real = f"raised {type(e).__name__}: {e}"
-        if env.ambiguous:
-            out.tally("skipped=anomaly-guard-on-float-boundary")
-            continue
-        nev = m.count("/") - m.count("/-") - (m.count("/") - m.count("/-")) // 2 if False else sum(1 for it in m.split(";") if not it.endswith("/-"))
-        out.count(key=(tuple(ts), tuple((s[0], tuple(s[1])) for s in specs), mode, history), nontrivial=nev > 0,
+        nev = sum(1 for it in m.split(";") if not it.endswith("/-"))
+        out.count(key=(tuple(ts), tuple((s[0], tuple(s[1])) for s in specs), tuple(own[0]), tuple(own[2]), mode, history), nontrivial=nev > 0,
                   samples=skind, mode=mode, history=history, listeners=len(specs), events=min(nev, 6))
         for s in specs:
             out.tally("kind=" + s[0])
         if real != m:
             out.fail("listen-stream", "output stream (dates, listener, labels, order) differs between Model/Listen.lean and the real Speaker/iter",
-                     {"samples": ts, "specs": specs, "mode": mode, "history": history, "line": case_line(ts, specs)}, observed=real, expected=m)
-        out.sample({"line": case_line(ts, specs)[:200], "reply": m[:200]}, limit=3)
-    L1 = env.build([("umbra", [0], [0], [0], [0], 0)])
+                     {"samples": ts, "specs": specs, "mode": mode, "history": history, "own": own, "line": line}, observed=real, expected=m)
+        out.sample({"line": line[:200], "reply": m[:200]}, limit=3)
+    own0 = ([0], [0], [0], [0])
     for (b, e, P), m in zip(bis, model[len(cases):]):
-        Ls, chans = env.build([("umbra", P, [0], [0], [0], 0)])
+        Ls, chans = env.build([("umbra", P, [0], [0], [0], 0)], own0)
         sp = env.StubProp(chans)
         ob, oe = env.StubOrb(env.date(b), chans), env.StubOrb(env.date(e), chans)
         r = sp._bisect(ob, oe, Ls[0])
